@@ -83,6 +83,10 @@ pub struct Dec {
     pub n_global_imports: usize,
     pub n_mem_imports: usize,
     pub code_bodies: usize,
+    /// model use only: slots of the library's ID spaces whose entity was deleted
+    pub deleted_f: std::collections::BTreeSet<u32>,
+    pub deleted_g: std::collections::BTreeSet<u32>,
+    pub deleted_m: std::collections::BTreeSet<u32>,
 }
 
 fn ops_of(expr: &wasmparser::ConstExpr) -> Result<Vec<String>, String> {
@@ -326,6 +330,10 @@ impl Ids {
     pub fn edit(d: &Dec) -> Ids {
         let mut ids = Ids::default();
         for (k, f) in d.funcs.iter().enumerate() {
+            if d.deleted_f.contains(&(k as u32)) {
+                ids.f.push(format!("F:DELETED({})", k));
+                continue;
+            }
             let id = match &f.import {
                 Some((m, n)) => format!("F:imp:{}.{}", m, n),
                 None => match (f.ops.first(), f.ops.get(1)) {
@@ -337,7 +345,11 @@ impl Ids {
             };
             ids.f.push(id);
         }
-        for g in d.globals.iter() {
+        for (k, g) in d.globals.iter().enumerate() {
+            if d.deleted_g.contains(&(k as u32)) {
+                ids.g.push(format!("G:DELETED({})", k));
+                continue;
+            }
             let id = match &g.import {
                 Some((m, n)) => format!("G:imp:{}.{}", m, n),
                 None => {
@@ -347,7 +359,11 @@ impl Ids {
             };
             ids.g.push(id);
         }
-        for (imp, ty) in d.mems.iter() {
+        for (k, (imp, ty)) in d.mems.iter().enumerate() {
+            if d.deleted_m.contains(&(k as u32)) {
+                ids.m.push(format!("M:DELETED({})", k));
+                continue;
+            }
             ids.m.push(match imp {
                 Some((m, n)) => format!("M:imp:{}.{}", m, n),
                 None => format!("M:{}", ty),
@@ -356,7 +372,7 @@ impl Ids {
         for (what, v) in [("function", &ids.f), ("global", &ids.g), ("memory", &ids.m)] {
             let mut seen = std::collections::BTreeSet::new();
             for x in v.iter() {
-                if !seen.insert(x.clone()) {
+                if !x.contains("DELETED") && !seen.insert(x.clone()) {
                     ids.ambiguous = Some(format!("{} identity {} is not unique", what, x));
                 }
             }
@@ -459,6 +475,9 @@ pub fn flatten(d: &Dec, ids: &Ids, o: &FlatOpts) -> Flat {
         }
     }
     for (i, f) in d.funcs.iter().enumerate() {
+        if d.deleted_f.contains(&(i as u32)) {
+            continue;
+        }
         let k = fkey(i);
         let sig = d.types.get(f.ty_idx as usize).cloned().unwrap_or_else(|| format!("BAD-TYPE-INDEX {}", f.ty_idx));
         match &f.import {
@@ -486,14 +505,20 @@ pub fn flatten(d: &Dec, ids: &Ids, o: &FlatOpts) -> Flat {
         }
     }
     for (i, (imp, ty)) in d.mems.iter().enumerate() {
-        m.insert(format!("memory[{}]", mkey(i)), format!("{:?} {}", imp, ty));
+        if d.deleted_m.contains(&(i as u32)) {
+            continue;
+        }
+        m.insert(format!("memory[{}]", mkey(i)), format!("{} {}", if imp.is_some() { "import" } else { "local" }, ty));
     }
     for (i, t) in d.tags.iter().enumerate() {
         m.insert(format!("tag[{:05}]", i), t.clone());
     }
     for (i, g) in d.globals.iter().enumerate() {
+        if d.deleted_g.contains(&(i as u32)) {
+            continue;
+        }
         let k = gkey(i);
-        m.insert(format!("global[{}].type", k), format!("{:?} {}", g.import, g.ty));
+        m.insert(format!("global[{}].type", k), format!("{} {}", if g.import.is_some() { "import" } else { "local" }, g.ty));
         for (j, op) in g.init.iter().enumerate() {
             m.insert(format!("global[{}].init[{:03}]", k, j), subst_op(op, ids, true));
         }
@@ -556,18 +581,33 @@ pub fn flatten(d: &Dec, ids: &Ids, o: &FlatOpts) -> Flat {
             m.insert("name.module".into(), x.clone());
         }
         for (i, x) in &n.funcs {
+            if d.deleted_f.contains(i) {
+                continue;
+            }
             m.insert(format!("name.func[{}]", if o.by_identity { ids.fid(*i) } else { format!("{:05}", i) }), x.clone());
         }
         for ((f, l), x) in &n.locals {
+            if d.deleted_f.contains(f) {
+                continue;
+            }
             m.insert(format!("name.local[{}][{:04}]", if o.by_identity { ids.fid(*f) } else { format!("{:05}", f) }, l), x.clone());
         }
         for ((f, l), x) in &n.labels {
+            if d.deleted_f.contains(f) {
+                continue;
+            }
             m.insert(format!("name.label[{}][{:04}]", if o.by_identity { ids.fid(*f) } else { format!("{:05}", f) }, l), x.clone());
         }
         for (i, x) in &n.globals {
+            if d.deleted_g.contains(i) {
+                continue;
+            }
             m.insert(format!("name.global[{}]", if o.by_identity { ids.gid(*i) } else { format!("{:05}", i) }), x.clone());
         }
         for (i, x) in &n.mems {
+            if d.deleted_m.contains(i) {
+                continue;
+            }
             m.insert(format!("name.memory[{}]", if o.by_identity { ids.mid(*i) } else { format!("{:05}", i) }), x.clone());
         }
         for (pre, mp) in [("type", &n.types), ("table", &n.tables), ("elem", &n.elems), ("data", &n.datas), ("tag", &n.tags)] {
@@ -606,6 +646,30 @@ pub fn first_diff(a: &Flat, b: &Flat) -> Option<(String, String, String)> {
             }
         }
     }
+}
+
+/// All differences (bounded), in key order.
+pub fn all_diffs(a: &Flat, b: &Flat, max: usize) -> Vec<(String, String, String)> {
+    let mut out = vec![];
+    for (k, v) in a {
+        match b.get(k) {
+            Some(w) if w == v => {}
+            Some(w) => out.push((k.clone(), v.clone(), w.clone())),
+            None => out.push((k.clone(), v.clone(), "<absent>".to_string())),
+        }
+        if out.len() >= max {
+            return out;
+        }
+    }
+    for (k, w) in b {
+        if !a.contains_key(k) {
+            out.push((k.clone(), "<absent>".to_string(), w.clone()));
+            if out.len() >= max {
+                return out;
+            }
+        }
+    }
+    out
 }
 
 /// Signature component for a differing path: indices and identities masked.
